@@ -523,6 +523,27 @@ def oracle_c04(rec, driver=None):
         a.position -= 1.2345
     if before != after:
         issues.append(dict(what='records-alias-live-state', keys=[k for k in before if before[k] != after.get(k)]))
+    # reading a history does not change it: printing it, querying it, copying it, pickling it
+    import contextlib, io, copy as _cp, pickle as _pk
+    before = {k: repr(v) for k, v in vars(h).items() if k != 'best_tree'}
+    reads = []
+    with contextlib.redirect_stdout(io.StringIO()):
+        for name, fn_ in (('str', lambda: str(h)), ('repr', lambda: repr(h)), ('format', lambda: '{}'.format(h)),
+                          ('get-best', lambda: h.get('best_agent', (0,))), ('get-best-fit', lambda: h.get('best_agent', (1,))),
+                          ('get-agents', lambda: h.get('agents', (0, 0)) if 'agents' in keys else None),
+                          ('deepcopy', lambda: _cp.deepcopy(h)), ('copy', lambda: _cp.copy(h)),
+                          ('pickle', lambda: _pk.dumps(h) if 'best_tree' not in keys else None)):
+            try:
+                fn_()
+            except Exception as ex:
+                # (what `get` raises on ragged or scalar records is C19's subject)
+                continue
+            now = {k: repr(v) for k, v in vars(h).items() if k != 'best_tree'}
+            if now != before:
+                reads.append(dict(read=name, keys=sorted(k for k in set(before) | set(now) if before.get(k) != now.get(k))))
+                before = now
+    if reads:
+        issues.append(dict(what='reading-changes-the-history', reads=reads))
     return issues, stats
 
 
@@ -579,6 +600,30 @@ def oracle_c07(rec):
             if moved:
                 issues.append(dict(what='write-through', source=i, moved=moved))
                 break
+        # a checkpoint of the space (deep copy, pickle round trip) is a population too: same size, same values, and its
+        # agents and best agent are objects of their own, sharing storage neither with each other nor with the original
+        import copy as _cp, pickle as _pk
+        import runlevel as _rl
+        for how, mk in (('deepcopy', lambda: _cp.deepcopy(sp)), ('pickle', lambda: _pk.loads(_pk.dumps(sp)))):
+            if cfg['kind'] == 'GP' and how == 'pickle':
+                continue
+            try:
+                cp = mk()
+            except Exception as ex:
+                issues.append(dict(what='space-copy-failed', how=how, error=type(ex).__name__ + ': ' + str(ex)[:120]))
+                continue
+            stats['checks'] += 1
+            lv = _rl.live_checks(L, cp, cfg)
+            objs = list(cp.agents) + [cp.best_agent]
+            same_obj = [(i, j) for i in range(len(objs)) for j in range(i + 1, len(objs)) if objs[i] is objs[j]]
+            orig = [a.position for a in sp.agents] + [sp.best_agent.position]
+            cross = [(i, j) for i, x in enumerate(objs) for j, y in enumerate(orig)
+                     if isinstance(x.position, np.ndarray) and isinstance(y, np.ndarray) and np.shares_memory(x.position, y)]
+            differs = [i for i, (x, y) in enumerate(zip(objs, list(sp.agents) + [sp.best_agent]))
+                       if not np.array_equal(np.asarray(x.position), np.asarray(y.position), equal_nan=True)]
+            if lv['n'] != len(sp.agents) or lv['alias'] or lv['fit_alias'] or same_obj or cross or differs:
+                issues.append(dict(what='space-copy-shares-or-differs', how=how, n=lv['n'], alias=lv['alias'], fit_alias=lv['fit_alias'],
+                                   same_object=same_obj, shares_with_original=cross, differs=differs))
     return issues, stats
 
 
